@@ -667,10 +667,7 @@ def interval_intersection(amp_band_lists, si):
 def drive_net(case):
     from gnpy.tools.json_io import network_from_json
     from gnpy.tools.worker_utils import designed_network
-    from gnpy.topology.spectrum_assignment import build_oms_list
-    from gnpy.core.elements import Roadm, Transceiver, Edfa, Multiband_amplifier
     eq = equipment_variant(case['eq'])
-    obs = {}
     try:
         if 'topo_file' in case:
             import gnpy
@@ -680,8 +677,20 @@ def drive_net(case):
         net = network_from_json(topo, eq)
         net, _, _ = designed_network(eq, net)
     except Exception as e:
-        obs['design_exc'] = f'{type(e).__name__}: {str(e)[:200]}'
-        return obs
+        return {'design_exc': f'{type(e).__name__}: {str(e)[:200]}'}
+    si = eq['SI']['default']
+    return observe(net, eq, [Fraction(si.f_min), Fraction(si.f_max)])
+
+
+class Diverges(Exception):
+    pass
+
+
+def observe(net, eq, si, step_limit=None):
+    """extract the graph from networkx, run the real build_oms_list on it, record what it built"""
+    import gnpy.topology.spectrum_assignment as sa
+    from gnpy.core.elements import Roadm, Transceiver, Edfa, Multiband_amplifier
+    obs = {}
     nodes = list(net.nodes())
     ids = {n: i for i, n in enumerate(nodes)}
     obs['uids'] = [n.uid for n in nodes]
@@ -693,8 +702,7 @@ def drive_net(case):
                      [[int(b['f_min']), int(b['f_max'])] if float(b['f_min']).is_integer() and float(b['f_max']).is_integer()
                       else [Fraction(b['f_min']), Fraction(b['f_max'])] for b in n.params.bands] if kind(n) == 2 else []]
                     for n in nodes]
-    si = eq['SI']['default']
-    obs['si'] = [Fraction(si.f_min), Fraction(si.f_max)]
+    obs['si'] = si
     # chain description, in the order build_oms_list will meet the lines
     lines, ok = [], True
     for n in nodes:
@@ -714,14 +722,25 @@ def drive_net(case):
                 steps += 1
             lines.append([ids[n], chain, ids[cur]])
     obs['lines'], obs['lines_ok'] = lines, ok
+    orig_add = sa.OMS.add_element
+    if step_limit is not None:
+        # a walk that never meets a ROADM would never return: stop it after more steps than (node, node) pairs exist
+        count = [0]
+
+        def guarded(self, elem):
+            count[0] += 1
+            if count[0] > step_limit:
+                raise Diverges('walk does not terminate')
+            return orig_add(self, elem)
+        sa.OMS.add_element = guarded
     try:
-        oms_list = build_oms_list(net, eq)
+        oms_list = sa.build_oms_list(net, eq)
     except Exception as e:
         obs['exc'] = f'{type(e).__name__}: {e}'
-        obs['line'] = exc_s(e)
-        obs['net'] = net
-        obs['ids'] = ids
+        obs['line'] = 'E:diverges' if isinstance(e, Diverges) else exc_s(e)
         return obs
+    finally:
+        sa.OMS.add_element = orig_add
     obs['oms'] = []
     for o in oms_list:
         b = o.spectrum_bitmap
@@ -746,6 +765,97 @@ def drive_net(case):
     return obs
 
 
+# ------------------------------------------------------------------ (c') build_oms_list on raw graphs
+RAW_BANDS = {'C': [[191300000000000, 196100000000000]], 'Cn': [[192000000000000, 195500000000000]],
+             'L': [[186100000000000, 190000000000000]], 'CL': [[191300000000000, 196100000000000],
+                                                                [186100000000000, 190000000000000]]}
+
+
+def gen_raw(rng, malformed=False):
+    """a network given directly as a graph of stand-in elements (no design): ROADMs, transceivers on ROADMs, lines of
+    amplifiers / passive elements; malformed: back edges, dead ends, shared elements, transceivers on lines ..."""
+    nr = rng.choice([2, 2, 3, 4])
+    nodes, edges = [], []          # nodes: [uid, kind, band key]; edges in insertion order
+    for r in range(nr):
+        nodes.append([f'R{r}', 0, None])
+        if rng.random() < 0.8:
+            nodes.append([f'T{r}', 1, None])
+            e = [(f'T{r}', f'R{r}'), (f'R{r}', f'T{r}')]
+            if rng.random() < 0.5:
+                e.reverse()
+            edges += e
+    pairs = [(a, b) for a in range(nr) for b in range(nr) if a != b]
+    rng.shuffle(pairs)
+    pairs = pairs[:rng.randint(1, len(pairs))]
+    if rng.random() < 0.3:
+        pairs.append(pairs[0])                       # parallel lines
+    if rng.random() < 0.15:
+        pairs.append((0, 0))                         # a loop line
+    for k, (a, b) in enumerate(pairs):
+        n = rng.choice([0, 1, 2, 2, 3, 4]) if (a != b) else rng.choice([2, 3])
+        mode = rng.choice(['C', 'C', 'L', 'CL', 'Cn', 'none'])
+        chain = []
+        for i in range(n):
+            if mode != 'none' and rng.random() < 0.6:
+                bk = mode if rng.random() < 0.8 else rng.choice(['C', 'Cn', 'L', 'CL'])
+                nodes.append([f'a{k}_{i}', 2, bk])
+            else:
+                nodes.append([f'f{k}_{i}', 3, None])
+            chain.append(nodes[-1][0])
+        p = [f'R{a}'] + chain + [f'R{b}']
+        for i in range(len(p) - 1):
+            fwd = (p[i], p[i + 1])
+            if malformed and 0 < i and rng.random() < 0.25:
+                back = (p[i], p[i - 1])              # an edge back to the element we came from
+                edges += [back, fwd] if rng.random() < 0.5 else [fwd, back]
+            elif malformed and 0 < i and rng.random() < 0.08:
+                pass                                 # dead end
+            else:
+                edges.append(fwd)
+    if not any(n[1] == 2 for n in nodes) and not malformed:
+        nodes.append(['a_x', 2, 'C'])
+        edges += [('R0', 'a_x'), ('a_x', 'R1')]
+    if malformed:
+        k = rng.random()
+        line_nodes = [n[0] for n in nodes if n[1] in (2, 3)]
+        if k < 0.2 and line_nodes:
+            nodes.append(['TX', 1, None])            # transceiver on a line
+            nodes.append(['fx', 3, None])
+            edges += [('TX', 'fx'), ('fx', 'R0'), ('R0', 'TX')]
+        elif k < 0.3:
+            nodes.append(['TZ', 1, None])            # transceiver without successor
+        elif k < 0.45 and len(line_nodes) >= 2:
+            a, b = rng.sample(line_nodes, 2)         # an element feeding two lines
+            edges.append((a, b))
+        elif k < 0.55 and line_nodes:
+            a = rng.choice(line_nodes)
+            edges.append((a, a))
+    if rng.random() < 0.5:
+        rng.shuffle(nodes)
+    return {'kind': 'raw', 'malformed': malformed, 'nodes': nodes, 'edges': [list(e) for e in edges],
+            'si': [191350000000000, 196050000000000]}
+
+
+def drive_raw(case):
+    from networkx import DiGraph
+    from gnpy.core.elements import Roadm, Transceiver, Edfa, Multiband_amplifier, Fused
+    g = DiGraph()
+    objs = {}
+    for uid, kind, bk in case['nodes']:
+        cls = [Roadm, Transceiver, None, Fused][kind] if kind != 2 else (Edfa if len(RAW_BANDS[bk]) == 1 else Multiband_amplifier)
+        e = cls.__new__(cls)
+        e.uid = uid
+        if kind == 2:
+            e.params = NS(bands=[{'f_min': float(a), 'f_max': float(b)} for a, b in RAW_BANDS[bk]])
+        objs[uid] = e
+        g.add_node(e)
+    for a, b in case['edges']:
+        g.add_edge(objs[a], objs[b])
+    eq = {'SI': {'default': NS(f_min=float(case['si'][0]), f_max=float(case['si'][1]), spacing=50e9)}}
+    n = len(case['nodes'])
+    return observe(g, eq, [Fraction(case['si'][0]), Fraction(case['si'][1])], step_limit=(n * n + n + 2) * (len(case['edges']) + 1))
+
+
 def oms_common_empty(obs):
     """does some line of the designed network carry amplifiers without any common band?"""
     g = obs['graph']
@@ -756,6 +866,16 @@ def oms_common_empty(obs):
     return False
 
 
+def si_outside_network_range(obs):
+    """some line has no amplifier (its common band is the SI band) and the SI band exceeds the range of all amplifiers"""
+    g = obs['graph']
+    allb = [b for n in g if n[1] == 2 for b in n[3]]
+    if not allb or not any(not [i for i in chain if g[i][1] == 2] for _, chain, _ in obs['lines']):
+        return False
+    return Fraction(obs['si'][0]) < min(Fraction(b[0]) for b in allb) or \
+        Fraction(obs['si'][1]) > max(Fraction(b[1]) for b in allb)
+
+
 def oracle_net(case, obs, ctx):
     fails = []
     g = obs['graph']
@@ -763,6 +883,9 @@ def oracle_net(case, obs, ctx):
         if obs['exc'].startswith('IndexError') and oms_common_empty(obs):
             fails.append(('oms-empty-common-range', 'build_oms_list raises ' + obs['exc'] + ' on a designed network in '
                           'which one OMS carries amplifiers without a common band'))
+        elif obs['exc'].startswith('SpectrumError') and si_outside_network_range(obs):
+            fails.append(('si-band-outside-network-range', 'build_oms_list raises ' + obs['exc'][:120] + ' on a network with '
+                          'an amplifier-less OMS (it takes the SI band) while every amplifier is narrower than the SI band'))
         else:
             fails.append(('build_oms_list_raises', obs['exc']))
         return fails
@@ -861,6 +984,8 @@ def generate(ctx):
     cases += [gen_unit(rng) for _ in range(ctx.scale(80, 800))]
     cases += [gen_net(rng) for _ in range(ctx.scale(150, 2500))]
     cases += [gen_net(rng, tricky=True) for _ in range(ctx.scale(40, 600))]
+    cases += [gen_raw(rng) for _ in range(ctx.scale(60, 800))]
+    cases += [gen_raw(rng, malformed=True) for _ in range(ctx.scale(60, 800))]
     # off-grid amplifier library: separate stream, marks reported not judged
     for _ in range(ctx.scale(15, 200)):
         c = gen_net(rng)
@@ -873,6 +998,7 @@ MATCHERS = {
     'oms-empty-common-range': lambda v: v.get('key') == 'oms-empty-common-range',
     'touching-bands-overlong': lambda v: v.get('key') == 'touching-bands-overlong',
     'trx-on-line-oms': lambda v: v.get('key') == 'trx-on-line-oms',
+    'si-band-outside-network-range': lambda v: v.get('key') == 'si-band-outside-network-range',
 }
 
 
@@ -938,6 +1064,17 @@ def run(ctx):
             terms.append(term_unit(c))
             meta.append((pc, obs['line'], 'corr:Oms.' + {'f2n': 'frequency_to_n', 'n2f': 'nvalue_to_frequency',
                                                           'slots': 'slots_to_m', 'fcr': 'find_common_range'}[kind]))
+        elif kind == 'raw':
+            obs = drive_raw(c)
+            ctx.count('raw_malformed' if c['malformed'] else 'raw_wellformed')
+            if 'exc' in obs:
+                ctx.count('raw_exception_' + obs['exc'].split(':')[0])
+            ctx.case(pc, len({o['cells'] for o in obs.get('oms', [])}) >= 2)
+            if not c['malformed']:
+                for key, desc in oracle_net(c, obs, ctx):
+                    ctx.violation(key, desc, pc)
+            terms.append(term_net(c, obs))
+            meta.append((pc, obs['line'], 'corr:Oms.build_oms_list'))
         elif kind == 'net':
             obs = drive_net(c)
             ctx.count('net_cases')
@@ -997,5 +1134,15 @@ def run(ctx):
         '(node order, edge order, element kinds, params.bands of every amplifier)',
         'off-grid band edges (stream offgrid, library variant 3) are compared model-vs-implementation but the '
         'FREE-exactly-inside clause is only counted there (int() truncates toward zero on both sides of 193.1 THz)',
+    ]
+    ctx.notes += [
+        'theorems build_oms_list_ok / oms_partition are conditional on decidable hypotheses (chain-structured graph, '
+        'sorted slot-separated common range on every line); net_hyps_b evaluates them in Coq on every designed network: '
+        f"held on {ctx.counters.get('net_theorem_hypotheses_T', 0)} networks, not on "
+        f"{ctx.counters.get('net_theorem_hypotheses_F', 0)} (those are judged by oracle and correspondence only)",
+        'matchers for open findings (effective only for entries listed as open in known_findings.json): '
+        'oms-empty-common-range, touching-bands-overlong, trx-on-line-oms, si-band-outside-network-range',
+        'n_freq_roundtrip_float is a finite theorem (n in [-4000, 4000], grid 6.25 GHz) computed with PrimFloat by '
+        'vm_compute; Print Assumptions lists the PrimFloat/PrimInt63 kernel primitives it evaluates with',
     ]
     return common.finish(ctx, MATCHERS)
